@@ -35,7 +35,7 @@ func (hostile) Name() string    { return "hostile-reader" }
 func (hostile) Props() []string { return []string{"C03"} }
 func (hostile) Runs(tier string) int64 {
 	if tier == "thorough" {
-		return 3000000
+		return 6000000
 	}
 	return 60000
 }
